@@ -22,12 +22,13 @@ import (
 type VPipe struct {
 	Name       string
 	buf        []byte
-	wclosed    bool // writer side closed: reader sees EOF after draining
-	rclosed    bool // reader side closed: reads and writes fail
-	Rendezvous bool // io.Pipe-like: Write returns only when everything was consumed
-	Writes     int  // completed Write calls
-	FailWrite  int  // the n-th Write call and all later ones fail (1-based; 0 = never)
-	CutAfter   int  // the reader sees EOF/err after this many bytes in total (-1 = never)
+	wclosed    bool  // writer side closed: reader sees EOF after draining
+	rclosed    bool  // reader side closed: reads and writes fail
+	Rendezvous bool  // io.Pipe-like: Write returns only when everything was consumed
+	Writes     int   // completed Write calls
+	FailWrite  int   // the n-th Write call and all later ones fail (1-based; 0 = never)
+	FailErr    error // error of failing writes (default: a plain injected error; io.EOF models a closed ssh channel)
+	CutAfter   int   // the reader sees EOF/err after this many bytes in total (-1 = never)
 	CutErr     error
 	delivered  int
 	Total      []byte // everything ever written (for framing checks)
@@ -73,6 +74,9 @@ func (p *VPipe) Write(b []byte) (int, error) {
 		return 0, io.ErrClosedPipe
 	}
 	if p.FailWrite > 0 && p.Writes >= p.FailWrite { // a dead transport stays dead
+		if p.FailErr != nil {
+			return 0, p.FailErr
+		}
 		return 0, errors.New("injected write failure")
 	}
 	p.buf = append(p.buf, b...)
@@ -448,4 +452,16 @@ func (h *vhandler) Filelist(r *Request) (ListerAt, error) {
 		h.Listers = append(h.Listers, l)
 		return l, nil
 	}
+}
+
+// wrapValues are count/length substitutions chosen so that a bound check written as a
+// multiplication (count*m > len) wraps around in 32 bits: ceil(2^32/m) and the next value, for the
+// element sizes a decoder might multiply by.
+func wrapValues() []uint32 {
+	var out []uint32
+	for _, m := range []uint64{2, 3, 4, 8, 12, 16, 24, 32} {
+		v := (uint64(1)<<32 + m - 1) / m
+		out = append(out, uint32(v), uint32(v+1))
+	}
+	return out
 }
